@@ -331,6 +331,43 @@ def shard(ctx):
                           {"kind": "pair", "a": A, "b": B, "data": docs})
         else:
             ctx.res.distinct.add(("default", str(sa)))
+        # default rule, richer bodies: `when` blocks, references to named rules and calls of a parameterised rule at file level
+        helpers = [gen.rule("h0", gen.gen_cnf(rng, doc, gen.Opts(refs=False, whens=False, types=False, max_lines=2), 0, env, maxlines=2)),
+                   gen.rule("h1", gen.gen_cnf(rng, doc, gen.Opts(refs=False, whens=False, types=False, max_lines=2), 0, env, maxlines=2))]
+        env2 = dict(env, refs=["h0", "h1"], allow_ref=True)
+        o3 = gen.Opts(refs=True, whens=True, types=False, max_lines=3)
+        cnf = gen.gen_cnf(rng, doc, gen.Opts(refs=False, whens=False, types=False, max_lines=2), 0, env, maxlines=2)
+        # always one `when` block whose body names a rule on a line of its own (the composition idiom of the documentation)
+        cnf.append([{"t": "when", "cond": gen.gen_cond(rng, doc, o3, 0, env2), "lets": [], "body": [[{"t": "ref", "neg": rng.random() < 0.3, "name": rng.choice(["h0", "h1"]), "msg": None}]] +
+                     gen.gen_cnf(rng, doc, gen.Opts(refs=False, whens=False, types=False, max_lines=1), 1, env, maxlines=1)}])
+        A = gen.pfile({"lets": [], "default": cnf, "rules": gen.clone(helpers)})
+        B = gen.pfile({"lets": [], "default": [], "rules": gen.clone(helpers) + [gen.rule("default", gen.clone(cnf))]})
+        sa, ra = statuses(ctx.w, A, docs)
+        sb, rb = statuses(ctx.w, B, docs)
+        ctx.res.cases += 1
+        ctx.res.counts["default-rule-with-references"] += 1
+        if sa == "crash" or sb == "crash":
+            ctx.inconclusive("crash")
+        elif sa != sb:
+            ctx.violation("default-rule:references", "file-level clauses %s vs rule default %s\n%s---\n%s--- doc %s" % (sa, sb, A, B, docs[:300]),
+                          {"kind": "pair", "a": A, "b": B, "data": docs})
+        else:
+            ctx.res.distinct.add(("default-refs", str(sa)))
+        if not ctx.res.counts["bare_reference_probe"] and ctx.mine(0):
+            ctx.res.counts["bare_reference_probe"] += 1
+            # a rule reference written directly at file level (not inside a `when` block)
+            A = "h0\n" + gen.pfile({"lets": [], "default": [], "rules": gen.clone(helpers[:1])})
+            B = gen.pfile({"lets": [], "default": [], "rules": gen.clone(helpers[:1]) + [gen.rule("default", [[{"t": "ref", "neg": False, "name": "h0", "msg": None}]])]})
+            sa, ra = statuses(ctx.w, A, docs)
+            sb, rb = statuses(ctx.w, B, docs)
+            ctx.res.cases += 1
+            if sa == "crash" or sb == "crash":
+                ctx.inconclusive("crash")
+            elif sa == "err" and sb != "err" and "arser" in ra.get("err", "")[:80]:
+                ctx.violation("default-rule:bare-reference-at-file-level:rejected", "a rule reference written at file level is rejected by the parser, inside `rule default` it evaluates (%s)" % sb,
+                              {"kind": "pair", "a": A, "b": B, "data": docs})
+            elif sa != sb:
+                ctx.violation("default-rule:bare-reference-at-file-level", "file-level reference %s vs rule default %s" % (sa, sb), {"kind": "pair", "a": A, "b": B, "data": docs})
 
 
 def replay(case, w):
